@@ -3,8 +3,25 @@
 E1: BFS over request histories on one parsed tree; every step is compared with the same
 request on a fresh parse; states are full structural fingerprints of the (possibly mutated)
 tree, so the search closes as soon as requests stop changing the tree.
+
+Closed worlds (libraries):
+  hand:*   the five libraries of vf.libs.HAND_LIBS (component types, extends, connectors, nested
+           classes, functions / types);
+  share:*  vf.libs.SHARE_LIBS: one library per construct whose handling in tree.py / ast.py can
+           reach an object of the parsed tree (see the table in vf/libs.py); in each of them one
+           class is *shared* by several users in different roles, so that for every ordered pair
+           of roles there is a history "first user, then second user";
+  multi:*  several test files merged with Tree.extend (the tree the compiler CLI works on);
+  file:*   every test/models/*.mo on its own.
+
+Trees are parsed once per library; later "fresh parses" and the states of the search are byte
+snapshots (pickle) that are accepted only if their structural fingerprint (vf.core.dump: every
+attribute, type, dict order and the sharing structure) equals that of the live tree -- otherwise
+the text is parsed again / the history is replayed.
 """
+import hashlib
 import os
+import pickle
 
 from vf import libs
 from vf.core import bfs, common, dump
@@ -12,49 +29,105 @@ from vf.core import bfs, common, dump
 LEVEL = "model_checking"
 
 _CFG = {}
-_TEXTS = {}
-_FRESH = {}
-_CLASSES = {}
+_TEXTS = {}  # lib -> tuple of source texts (more than one: merged with Tree.extend)
+_PREP = {}  # lib -> {"snap": bytes|None, "classes": [...], "fresh": {(kind, cls): result}, "digest": str}
+
+# files that only make sense together (the second refers to classes of the first)
+MULTI = (
+    ("TreeLookup.mo", "Import.mo"),
+    ("TreeLookup.mo", "FunctionPull.mo"),
+    ("TreeLookup.mo", "NestedClasses.mo", "Import.mo", "FunctionPull.mo"),
+)
+
+ALL_KINDS = ("flatten", "casadi", "sympy", "xml")
 
 
 def _load_texts(tier):
-    texts = dict(("hand:" + k, v) for k, v in libs.HAND_LIBS.items())
+    texts = dict(("hand:" + k, (v,)) for k, v in libs.HAND_LIBS.items())
+    texts.update(("share:" + k, (v,)) for k, v in libs.SHARE_LIBS.items())
+    files = {}
     for f in libs.test_model_files():
         with open(f, encoding="utf-8") as fh:
-            texts["file:" + os.path.basename(f)] = fh.read()
+            files[os.path.basename(f)] = fh.read()
+    for k, v in files.items():
+        texts["file:" + k] = (v,)
+    for combo in MULTI:
+        if all(c in files for c in combo):
+            texts["multi:" + "+".join(combo)] = tuple(files[c] for c in combo)
     return texts
 
 
 def _init(tier):
     _CFG["tier"] = tier
-    _TEXTS.clear()
-    _TEXTS.update(_load_texts(tier))
+    if not _TEXTS:
+        _TEXTS.update(_load_texts(tier))
     import sys
 
     sys.setrecursionlimit(10000)
 
 
+def _preimport():
+    """Import the subject once in the parent: forked workers then all run the same code and do not each pay
+    for compiling the generated parser."""
+    import pymoca.backends.casadi.generator  # noqa: F401
+    import pymoca.backends.sympy.generator  # noqa: F401
+    import pymoca.backends.xml.generator  # noqa: F401
+    import pymoca.parser  # noqa: F401
+    import pymoca.tree  # noqa: F401
+    import tools.compiler  # noqa: F401
+
+
 def _parse(lib):
+    """A real parse of the library text(s)."""
+    from pymoca import ast as past
     from pymoca import parser
 
-    return parser.parse(_TEXTS[lib], bypass_cache=True)
+    texts = _TEXTS[lib]
+    if len(texts) == 1:
+        return parser.parse(texts[0], bypass_cache=True)
+    root = past.Tree(name="ModelicaTree")  # what tools/compiler.py parse_all builds
+    for t in texts:
+        sub = parser.parse(t, bypass_cache=True)
+        if sub is None:
+            return None
+        root.extend(sub)
+    return root
+
+
+def _snapshot(tree):
+    """Bytes from which a structurally identical tree can be restored, or None."""
+    try:
+        b = pickle.dumps(tree, protocol=pickle.HIGHEST_PROTOCOL)
+        if dump.digest(pickle.loads(b)) == dump.digest(tree):
+            return b
+    except Exception:
+        pass
+    return None
+
+
+def _fresh_tree(lib):
+    p = _PREP.get(lib)
+    if p is not None and p["snap"] is not None:
+        return pickle.loads(p["snap"])
+    return _parse(lib)
 
 
 def classes_of(lib):
-    if lib not in _CLASSES:
-        t = _parse(lib)
-        _CLASSES[lib] = libs.class_paths(t) if t is not None else []
-    return _CLASSES[lib]
+    return _PREP[lib]["classes"]
 
 
 def kinds_for(lib):
-    if lib.startswith("hand:") or _CFG["tier"] == "thorough":
-        return ("flatten", "casadi", "sympy", "xml")
+    if not lib.startswith("file:") or _CFG["tier"] == "thorough":
+        return ALL_KINDS
     return ("flatten", "casadi")
 
 
+def _canon(s):
+    return "<%d chars, sha %s>" % (len(s), hashlib.sha1(s.encode("utf-8", "replace")).hexdigest())
+
+
 def do_request(tree, kind, cls):
-    """Result of one request in canonical form; exceptions are results."""
+    """Result of one request in canonical form (length and hash of the full text form); exceptions are results."""
     from pymoca import ast as past
 
     try:
@@ -65,22 +138,22 @@ def do_request(tree, kind, cls):
             try:
                 import json
 
-                return ("ok", json.dumps(past.Node.to_json(flat), sort_keys=True, default=repr))
+                return ("ok", _canon(json.dumps(past.Node.to_json(flat), sort_keys=True, default=repr)))
             except Exception:
                 return ("ok-dump", dump.digest(flat))
         if kind == "casadi":
             from pymoca.backends.casadi.generator import generate
 
             m = generate(tree, cls, {})
-            return ("ok", model_canon(m))
+            return ("ok", _canon(model_canon(m)))
         if kind == "sympy":
             from pymoca.backends.sympy.generator import generate
 
-            return ("ok", generate(tree, cls, {}))
+            return ("ok", _canon(generate(tree, cls, {})))
         if kind == "xml":
             from pymoca.backends.xml.generator import generate
 
-            return ("ok", generate(tree, cls))
+            return ("ok", _canon(generate(tree, cls)))
     except RecursionError:
         return ("exc", "RecursionError")
     except Exception as e:
@@ -104,11 +177,28 @@ def model_canon(m):
     return "\n".join(parts)
 
 
+def _prepare(lib):
+    """One real parse of a library; its snapshot, classes and the fresh-parse result of every request."""
+    t = _parse(lib)
+    if t is None:
+        return lib, None
+    classes = libs.class_paths(t)
+    if not classes:
+        return lib, None
+    p = {"snap": _snapshot(t), "classes": classes, "digest": dump.digest(t), "fresh": {}}
+    _PREP[lib] = p
+    first = True
+    for kind in kinds_for(lib):
+        for cls in classes:
+            # the very first request uses the parsed tree itself, all others a restored snapshot
+            tree = t if first else _fresh_tree(lib)
+            first = False
+            p["fresh"][(kind, cls)] = do_request(tree, kind, cls)
+    return lib, p
+
+
 def fresh(lib, kind, cls):
-    k = (lib, kind, cls)
-    if k not in _FRESH:
-        _FRESH[k] = do_request(_parse(lib), kind, cls)
-    return _FRESH[k]
+    return _PREP[lib]["fresh"][(kind, cls)]
 
 
 def _outcome_class(exp, got):
@@ -122,18 +212,23 @@ def _outcome_class(exp, got):
 def expand(hist):
     out = []
     if not hist:
-        for lib in sorted(_TEXTS):
-            t = _parse(lib)
-            if t is None or not classes_of(lib):
-                continue
-            out.append({"ev": ["lib", lib], "key": ("lib", lib, dump.digest(t))})
+        for lib in sorted(_PREP):
+            out.append({"ev": ["lib", lib], "key": ("lib", lib, _PREP[lib]["digest"])})
         return out
     lib = hist[0][1]
+    # the state reached by the history, built once and then restored for every request
+    state = _fresh_tree(lib)
+    for ev in hist[1:]:
+        do_request(state, ev[0], ev[1])
+    snap = _snapshot(state) if len(hist) > 1 else _PREP[lib]["snap"]
     for kind in kinds_for(lib):
         for cls in classes_of(lib):
-            tree = _parse(lib)
-            for ev in hist[1:]:
-                do_request(tree, ev[0], ev[1])
+            if snap is not None:
+                tree = pickle.loads(snap)
+            else:
+                tree = _fresh_tree(lib)
+                for ev in hist[1:]:
+                    do_request(tree, ev[0], ev[1])
             got = do_request(tree, kind, cls)
             exp = fresh(lib, kind, cls)
             viol = []
@@ -151,19 +246,34 @@ def expand(hist):
 
 
 def _short(r):
-    s = r[1]
-    return "%s:%s" % (r[0], s if len(s) < 80 else "<%d chars, sha %s>" % (len(s), __import__("hashlib").sha1(s.encode()).hexdigest()[:8]))
+    return "%s:%s" % (r[0], r[1])
 
 
-def cli_pairs(pool):
-    """CLI clause: -m K1 -m K2 reports what K1 alone and K2 alone report."""
+# ----------------------------------------------------------------------------
+# CLI clause: -m K1 -m K2 reports what K1 alone and K2 alone report
+
+
+def _cli_libs():
+    out = dict(libs.HAND_LIBS)
+    out.update(("share_" + k, v) for k, v in libs.SHARE_LIBS.items())
+    return out
+
+
+def _cli_classes(name):
+    lib = ("share:" + name[len("share_") :]) if name.startswith("share_") else "hand:" + name
+    return classes_of(lib)
+
+
+def cli_jobs():
     jobs = []
-    for name in sorted(libs.HAND_LIBS):
-        cl = classes_of("hand:" + name)
+    for name in sorted(_cli_libs()):
+        cl = _cli_classes(name)
+        for a in cl:
+            jobs.append((name, a, None))
         for a in cl:
             for b in cl:
                 jobs.append((name, a, b))
-    return jobs, pool.map(_cli_pair, jobs)
+    return jobs
 
 
 def _cli_run(path, models):
@@ -180,49 +290,89 @@ def _cli_run(path, models):
         return ("exc", type(e).__name__)
 
 
-def _cli_pair(job):
+_CLI_PATHS = {}
+
+
+def _cli_job(job):
     name, a, b = job
-    d = common.new_scratch("cli")
-    path = os.path.join(d, "lib.mo")
-    with open(path, "w") as f:
-        f.write(libs.HAND_LIBS[name])
-    ra, rb, rab = _cli_run(path, [a]), _cli_run(path, [b]), _cli_run(path, [a, b])
+    if name not in _CLI_PATHS:
+        d = common.new_scratch("cli")
+        _CLI_PATHS[name] = os.path.join(d, "lib.mo")
+        with open(_CLI_PATHS[name], "w") as f:
+            f.write(_cli_libs()[name])
+    return _cli_run(_CLI_PATHS[name], [a] if b is None else [a, b])
+
+
+def _cli_pair(job):
+    """Replay helper: one ordered pair and its two singles."""
+    name, a, b = job
+    ra, rb, rab = _cli_job((name, a, None)), _cli_job((name, b, None)), _cli_job((name, a, b))
     ok = isinstance(ra, int) and isinstance(rb, int) and rab == ra + rb
     return (ok, ra, rb, rab)
 
 
 def run(ctx):
     _init(ctx.tier)
+    _preimport()
     depth = 1 + (3 if ctx.tier == "quick" else 5)
+    # phase 1: one real parse per library (in parallel); the results are inherited by the search workers (fork)
+    with common.Pool(init=_init, initargs=(ctx.tier,)) as pool:
+        prepared = pool.map(_prepare, sorted(_TEXTS), chunksize=1)
+    _PREP.clear()
+    no_snapshot = []
+    for lib, p in prepared:
+        if p is not None:
+            _PREP[lib] = p
+            if p["snap"] is None:
+                no_snapshot.append(lib)
     with common.Pool(init=_init, initargs=(ctx.tier,)) as pool:
         st = bfs.search(ctx, pool, expand, init_key=("root",), max_depth=depth)
-        jobs, res = cli_pairs(pool)
-    bad = 0
-    for job, (ok, ra, rb, rab) in zip(jobs, res):
-        if not ok:
-            bad += 1
+        jobs = cli_jobs()
+        res = dict(zip(jobs, pool.map(_cli_job, jobs)))
+    pairs = [j for j in jobs if j[2] is not None]
+    for name, a, b in pairs:
+        ra, rb, rab = res[(name, a, None)], res[(name, b, None)], res[(name, a, b)]
+        if not (isinstance(ra, int) and isinstance(rb, int) and rab == ra + rb):
             ctx.violation(
                 "cli:pair-differs-from-singles",
-                "tools.compiler -m %s -m %s on library %s exits %r, alone they exit %r and %r" % (job[1], job[2], job[0], rab, ra, rb),
-                {"cli": list(job)},
+                "tools.compiler -m %s -m %s on library %s exits %r, alone they exit %r and %r" % (a, b, name, rab, ra, rb),
+                {"cli": [name, a, b]},
             )
-    nlibs = len([1 for k in _TEXTS])
+    nlibs = len(_PREP)
+    by = {}
+    for lib in _PREP:
+        by[lib.split(":")[0]] = by.get(lib.split(":")[0], 0) + 1
+    requests = sum(len(p["fresh"]) for p in _PREP.values())
+    nontrivial_requests = sum(1 for p in _PREP.values() for r in p["fresh"].values() if r[0] == "ok")
     ctx.coverage.update(st)
     ctx.coverage.update(
         {
             "traces_validated_against_impl": st["transitions"],
             "evaluations": st["transitions"] + len(jobs),
             "distinct_nontrivial": st["states"],
-            "cli_pairs": len(jobs),
+            "cli_pairs": len(pairs),
+            "cli_runs": len(jobs),
             "libraries": nlibs,
+            "libraries_by_kind": by,
+            "requests": requests,
+            "requests_ok_on_fresh_parse": nontrivial_requests,
+            "libraries_without_verified_snapshot": no_snapshot,
             "exhaustive": bool(st["closed"]),
             "rule": "all request sequences (flatten / casadi generate / sympy generate / xml generate of every class) of "
-            "length <= %d on one parsed tree for %d libraries (5 hand-written with shared component types, extends, "
-            "connectors, nested classes, functions; every test/models/*.mo), each step compared with the same request "
-            "on a fresh parse; state = structural fingerprint of the whole tree after the step, search stops at closure; "
-            "plus every ordered pair of -m requests through tools.compiler.main on the hand-written libraries"
-            % (depth - 1, nlibs),
+            "length <= %d on one parsed tree for %d libraries (%d hand-written with shared component types, extends, "
+            "connectors, nested classes, functions; %d hand-written ones in which one class is shared by users in different "
+            "roles -- read through a dotted constant reference, extended with and without modification, component type, "
+            "replacement class of a class / component redeclaration, short class definition, import target, pulled function, "
+            "connector, enclosing-scope lookup; each of the %d test/models/*.mo (flatten and casadi only in quick); %d merges of test "
+            "files with Tree.extend), each step compared with the same request on a fresh parse; state = structural "
+            "fingerprint of the whole tree after the step, search stops at closure; a state is non-trivial when it is a "
+            "distinct tree fingerprint; plus every ordered pair of -m requests through tools.compiler.main on the "
+            "hand-written libraries" % (depth - 1, nlibs, by.get("hand", 0), by.get("share", 0), by.get("file", 0), by.get("multi", 0)),
         }
+    )
+    ctx.assumptions.append(
+        "a tree restored from a pickle snapshot whose structural fingerprint (all attributes, types, dict order, sharing) "
+        "equals that of the parsed / replayed tree behaves like that tree; snapshots that do not verify are not used"
     )
     if not st["closed"]:
         ctx.cap("request-sequence length %d reached before closure (some request mutates the tree)" % (depth - 1))
@@ -231,12 +381,15 @@ def run(ctx):
 def replay(case):
     _init("thorough")
     if "cli" in case:
+        name = case["cli"][0]
+        lib = ("share:" + name[len("share_") :]) if name.startswith("share_") else "hand:" + name
+        _prepare_light(lib)
         r = _cli_pair(tuple(case["cli"]))
         print(r)
         return r[0]
     hist = case["history"]
     lib = hist[0][1]
-    tree = _parse(lib)
+    tree = _parse(lib)  # real parses only
     ok = True
     for ev in hist[1:]:
         got = do_request(tree, ev[0], ev[1])
@@ -244,3 +397,8 @@ def replay(case):
         print(ev, "same as fresh parse" if got == exp else "DIFFERS: %s vs fresh %s" % (_short(got), _short(exp)))
         ok = ok and got == exp
     return ok
+
+
+def _prepare_light(lib):
+    t = _parse(lib)
+    _PREP[lib] = {"snap": None, "classes": libs.class_paths(t), "digest": None, "fresh": {}}
